@@ -84,6 +84,10 @@ checks.update({
    technique="TLA+ spec of effective parameters (Queries.tla: ParamList = path-level then operation-level, FoldParams override under in#GoName, RefKind valid/dangling/not-a-parameter, BadRefs); the four variants queried on the real analyzer with a recording callback under two policies (continue / stop) and the plain variants under recover; TLC validates results, reported errors and panics (Trace_Queries)",
    text="model_checking (trace validation): for every method x path (existing or not) and every unique / unknown operation id, TLC checks: Safe variants never panic, never return an unresolved placeholder, report exactly the bad $refs in order (continue policy) or a consistent subset (stop policy: any prefix-closed outcome accepted); plain variants panic iff a bad $ref exists and otherwise return the specified map; missing method/path/id and documents without paths give an empty result.",
    note="Trusted: swag.ToGoName supplied as a relation (names are drawn so that it is injective); projection; TLC/Json. The override key is (location, name) as the statement says; x-go-name is generated but must not matter.", ref="7/C15"),
+ "C07": dict(
+   technique="TLA+ trace predicate over recorded runs (Trace_Det.tla: all outcomes and SHA-256 of json.Marshal(document) equal across R repeated runs and P input copies with permuted JSON member order; Expand claimed only when HasCycle(bundle) of RefSem.tla is false); cases from the TLC-enumerated scenario family (incl. two imports on one base name, one target under two $ref spellings, sibling keys equal up to case) and the directed corpus",
+   text="model_checking (trace validation) of sampled schedules: each (bundle of W, option set) is flattened R=5 (thorough 16) times in worker processes (Go randomises every map range) and on P=2 (6) copies of the files whose JSON members are written in a permuted order; TLC decides equality of outcomes and hashes and computes the applicability of Expand from the $ref graph. Map-iteration schedules can only be sampled on the real code: a two-way order dependence is missed with probability 2^-(R-1) per case.",
+   note="Trusted: Go's per-range map randomisation as schedule sampler; projection; TLC/Json. The self-composed pipeline model (MC_FlattenDet) of DESIGN.md is not built: the order-dependent choice points are exercised through the directed scenarios instead.", ref="7/C07"),
 })
 
 def check_entry(pid, c):
